@@ -1,5 +1,6 @@
 import Upf.Model.AgentUp4
 import Upf.Proofs.Up4Meters
+import Upf.Proofs.Up4Start
 /-!
 # C04 — UP4 tables are the image of the live sessions' rules
 
@@ -103,6 +104,15 @@ theorem known_peer_is_shared (cfg : Cfg4) (c : Ctx) (f : Far) (pr : Shared) (e :
   refine ⟨by simp, ?_⟩
   simp only [write_peers]
   rw [mapGet_mapPut]; simp
+
+/-- table entries left behind by a previous, killed incarnation are cleared at start-up: whatever the switch held, after a
+start-up whose Writes are served every entry of the seven tables the agent owns is one of the two interfaces entries
+(N3 address, UE pool) it has just written -/
+theorem restart_clears_tables (cfg : Cfg4) (srv : Srv) (ue n3 : Entry)
+    (hue : buildInterface cfg.uePool.1 cfg.uePool.2 cfg.sliceID true = some ue)
+    (hn3 : buildInterface cfg.accessIP cfg.accessLen cfg.sliceID false = some n3)
+    (e : Entry) (he : e ∈ (start cfg srv []).1.st.srv.entries) (ht : e.table ∈ clearedTables) : e = ue ∨ e = n3 :=
+  start_tables cfg srv ue n3 hue hn3 e he ht
 
 /-- the traffic class is the one configured for the QFI, else the default -/
 theorem traffic_class_choice (cfg : Cfg4) (qfi : Nat) :
